@@ -261,7 +261,7 @@ Qed.
 
 Lemma step_res_ok s o : is_ok (step_res true s o).
 Proof.
-  destruct o as [p|p|p [d|]|p c]; simpl; try apply ok_ok.
+  destruct o as [p|p|p [d|]|p c|p]; simpl; try apply ok_ok.
   - destruct (find_peer s p); apply ok_ok.
   - destruct (find_peer s p); [apply process_cmd_ok | apply ok_ok].
   - destruct (find_peer s p); [apply process_cmd_ok | apply ok_ok].
@@ -639,7 +639,7 @@ Lemma step_accepted s m o :
 Proof.
   intros [Hi Hm]. unfold step, step_fx.
   destruct (step_res_ok s o) as [[s1 l] Hs]. rewrite Hs.
-  destruct o as [p|p|p d|p c]; cbn [mon].
+  destruct o as [p|p|p d|p c|p]; cbn [mon].
   - (* Connect *)
     simpl in Hs. destruct (find_peer s p) as [pe|] eqn:Hf; inversion Hs; subst; clear Hs; cbn [map].
     + assert (memN p m = true) by (apply Hm, find_peer_skis; eexists; exact Hf).
@@ -678,6 +678,8 @@ Proof.
       assert (Hn : memN p m = false).
       { destruct (memN p m) eqn:E; [|reflexivity]. apply Hm, find_peer_skis in E. destruct E as [pe E]. congruence. }
       rewrite Hn. cbn [map]. split; [reflexivity | split; assumption].
+  - (* Opaque *)
+    simpl in Hs. inversion Hs; subst; clear Hs. cbn [map]. split; [reflexivity | split; assumption].
 Qed.
 
 Lemma run_accepted_from ops : forall s m, rel s m -> accepted (judge m sinit (snd (run_fx true s ops))) = true.
